@@ -26,7 +26,8 @@ LEVEL = "exploration"
 RULE = ("Hypothesis cases: n clients in {1,2}, ascii or binary payloads, client/server socket buffer sizes from a "
         "small set, 1..60 steps, each step either 'queue 1-3 packets (transmit) / messages on stack X for peer Y' "
         "(size classes 1 B .. 300 KiB, unique ascii tag + patterned body) or 'call service method M of stack X once' "
-        "(20 server / 18 client methods); then a deterministic drain (serviceAll rounds, half-close, read to "
+        "(20 server / 18 client methods), in a third of the cases also 'queue a packet on the server stack for an address that is not "
+        "connected' (refused with one ValueError, must not hold up the packets behind it); then a deterministic drain (serviceAll rounds, half-close, read to "
         "EOF). Checked after every step and at the end: per connection and direction, concatenation of the "
         "packets appended to .rxPkts == (prefix of) concatenation of the packets appended to the peer's .txPkts. "
         "non-trivial = some service call found >= 2 packets queued on its stack and both directions carried "
@@ -65,6 +66,7 @@ CLIENT_OPS = ["serviceConnect", "serviceReceives", "serviceReceivesOnce", "servi
 BUFS = [(16192, 1048576), (16192, 8096), (2048, 4096), (2048, 1048576)]
 SIZES = [1, 7, 60, 900, 5000, 20000, 60000, 150000, 300000]
 MAX_TOTAL = 1536 * 1024
+STRAY = ("127.0.0.1", 9)     # an address that is never a connection of the server stack
 SETUP_ROUNDS = 400
 FLUSH_ROUNDS = 4000
 EOF_ROUNDS = 400
@@ -163,6 +165,8 @@ class Session(object):
         self.got_len = {}    # key -> bytes verified so far on the receiver
         self.got_n = {}      # key -> number of rxPkts.rec entries consumed
         self.seq = 0
+        self.stray_budget = 0   # stray packets queued and not yet refused (each may cost one ValueError)
+        self.stray_seen = 0
 
     # ------------------------------------------------------------------ life cycle
     def fail(self, sig, what):
@@ -252,6 +256,18 @@ class Session(object):
             if not ok:
                 self.fail("transmit-not-queued", "transmit() of %r... did not append exactly that packet to .txPkts" % (data[:24],))
 
+    def queue_stray(self, seed):
+        """A packet for an address that is no connection of the server stack: it cannot be delivered (the stack refuses
+        it with one ValueError when its turn comes) and must not hold up the packets queued behind it for connected
+        peers."""
+        from ioflo.aio.proto import packeting
+        self.seq += 1
+        data = ("<x9P%04d|" % self.seq).encode("ascii") + body(7, seed, self.binary) + b">"
+        self.server.transmit(packeting.Packet(stack=self.server, packed=data), STRAY)
+        self.stray_budget += 1
+        self.stray_seen += 1
+        self.info["stray"] = True
+
     def service(self, who, opidx):
         """who 0 = server, k>0 = client k-1."""
         if who == 0:
@@ -270,7 +286,14 @@ class Session(object):
         target = stack
         for part in name.split("."):
             target = getattr(target, part)
-        target()
+        try:
+            target()
+        except ValueError as ex:
+            # refusal of a stray packet (unknown connection address): once per stray packet
+            if stack is self.server and self.stray_budget > 0 and repr(STRAY) in str(ex):
+                self.stray_budget -= 1
+            else:
+                raise
         if stack is self.server:
             if any(ix.txes for ix in stack.handler.ixes.values()):   # Incomer kept an unsent remainder
                 self.info["spartial"] = True
@@ -288,6 +311,8 @@ class Session(object):
             pkt, ca = ent
             if ca in self.cas:
                 self.exp[("s", self.cas.index(ca))].extend(pkt.packed)
+            elif ca == STRAY:
+                pass
             else:
                 self.fail("tx-unknown-destination", "server .txPkts got a packet for %r which is no connection" % (ca,))
         self.exp_n["srv"] = len(rec)
@@ -381,10 +406,17 @@ class Session(object):
         for rnd in range(FLUSH_ROUNDS):
             before = self.pending()
             ready = dict((label, self.writable(v[1])) for label, v in before.items())
+            budget0 = self.stray_budget
             self.round()
             self.absorb()
             if self.fails:
                 return
+            if self.stray_budget != budget0:
+                # this round was cut short by the (expected, once per packet) refusal of a stray packet: it says
+                # nothing about a stall
+                streak.clear()
+                last = None
+                continue
             pend = self.pending()
             if not pend:
                 break
@@ -495,6 +527,8 @@ def run_case(case):
                             i = (d // 2) % len(sess.clients)
                             for k in range(count):   # count packets back to back; later ones smaller
                                 sess.queue("s" if d % 2 == 0 else "c", i, (path + k) % 2, max(0, sizeidx - 2 * k), seed + k)
+                        elif step[0] == "stray":
+                            sess.queue_stray(step[1])
                         else:
                             _, who, opidx = step
                             name = sess.service(who % (len(sess.clients) + 1), opidx)
@@ -535,7 +569,15 @@ def case_strategy():
                    st.sampled_from([0, 1, 1, 2, 2, 3, 3, 4, 4, 5, 5, 6, 6, 7, 8]), st.integers(0, 250),
                    st.sampled_from([1, 1, 2, 3]))
     svc = st.tuples(st.just("svc"), st.integers(0, 2), st.integers(0, 19))
-    step = st.one_of(tx, tx, svc, svc, svc)
+    stray = st.tuples(st.just("stray"), st.integers(0, 250))
+    step_plain = st.one_of(tx, tx, svc, svc, svc)
+    step_stray = st.one_of(tx, tx, svc, svc, svc, stray)
+    # a third of the cases may also queue packets for an address that is not connected
+    step = step_plain
+    return st.one_of(_cases(step_plain), _cases(step_plain), _cases(step_stray))
+
+
+def _cases(step):
     return st.fixed_dictionaries({
         "nclients": st.sampled_from([1, 1, 2]),
         "binary": st.sampled_from([False, False, False, True]),
@@ -578,6 +620,8 @@ def work(shard, seed, tier):
             classes.append("rx-packet-spanning-several-queued")
         if info["msgpath"]:
             classes.append("message-path-used")
+        if info.get("stray"):
+            classes.append("stray-destination-queued")
         if both:
             classes.append("both-directions")
         if info["burst"]:
